@@ -1,4 +1,282 @@
-import AffVerif.Model.Tree
-/-! # C12 — the arena tree stays structurally consistent (theorems added below as they are proved) -/
+import AffVerif.Proofs.TreeLemmas
+/-!
+# C12 — the arena tree stays structurally consistent under any operation sequence
+
+The model of `Tree<N,K>` is an inductive tree whose nodes carry their slab index; the arena the implementation
+stores is the image `toArena` of it, and the judge accepts an arena dump of the implementation only if it *is*
+such an image (`Judge/C12.lean`, after every operation of every generated history). The theorems below state what
+that image and the operations guarantee, for every tree and every history:
+
+* `C12_arena_len`, `C12_arena_leaf_flag`, `C12_arena_one_root`, `C12_links_mirror` — the structural clauses of the
+  property hold for the arena of *every* tree with pairwise distinct indices;
+* `C12_add_child`, `C12_remove_child`, `C12_remove_descendants`, `C12_merge`, `C12_update` — what each operation does
+  to the `(index, value)` entries: surviving nodes keep index and value, nothing else appears;
+* `C12_history` — distinct indices (the invariant the structural clauses need) hold in every reachable state, for
+  every sequence of operations with valid and invalid arguments; a failing operation leaves the state unchanged
+  (in the model by construction; on the implementation this is what the correspondence check observes).
+-/
+set_option linter.unusedVariables false
 namespace AV
+variable {β : Type}
+
+/-! ### the arena of any tree -/
+
+/-- `len()` = number of reachable nodes: one record per node of the tree -/
+theorem C12_arena_len (t : ITree β) : t.toArena.length = t.size := by
+  have := congrArg List.length (ITree.toArenaAux_entries t none)
+  rw [List.length_map] at this
+  rw [ITree.size_eq_entries]; exact this
+
+/-- a node is flagged as leaf exactly when all its child slots are empty -/
+theorem C12_arena_leaf_flag (t : ITree β) : ∀ nd ∈ t.toArena, nd.isleaf = nd.children.all Option.isNone :=
+  ITree.arena_leaf_flag t none
+
+/-- exactly one record (the first, the root's) has no parent -/
+theorem C12_arena_one_root (t : ITree β) :
+    ∃ r rest, t.toArena = r :: rest ∧ r.parent = none ∧ r.idx = t.idx ∧ ∀ nd ∈ rest, nd.parent.isSome = true := by
+  cases t with
+  | node i v ks =>
+    refine ⟨⟨i, none, ks.slotIdx, ks.allNone, v⟩, ks.toArenaAux i, by simp [ITree.toArena, ITree.toArenaAux], rfl, rfl, ?_⟩
+    exact IKids.arena_parent ks i
+
+/-- parent and child links mirror each other: `b.parent = a` iff `b` sits in one of `a`'s child slots -/
+theorem C12_links_mirror (t : ITree β) (hnd : t.indices.Nodup) :
+    ∀ a ∈ t.toArena, ∀ b ∈ t.toArena, (b.parent = some a.idx ↔ some b.idx ∈ a.children) := by
+  intro a ha b hb
+  unfold ITree.toArena at ha hb
+  rw [ITree.toArenaAux_eq_subs, List.mem_map] at ha hb
+  obtain ⟨sa, hsa, rfl⟩ := ha
+  obtain ⟨sb, hsb, rfl⟩ := hb
+  exact ITree.subs_mirror t hnd sa hsa sb hsb
+
+/-- the indices stored in the arena are pairwise distinct and are exactly the indices of the tree -/
+theorem C12_arena_indices (t : ITree β) : t.toArena.map (·.idx) = t.indices := by
+  have := congrArg (List.map Prod.fst) (ITree.toArenaAux_entries t none)
+  rw [List.map_map] at this
+  rw [ITree.indices_eq_entries, ← this]; rfl
+
+/-! ### what each operation does to the stored `(index, value)` pairs -/
+
+theorem nodup_of_entries_perm {t t' : ITree β} {e : Nat × β} (h : t'.entries.Perm (e :: t.entries))
+    (hnd : t.indices.Nodup) (hf : e.1 ∉ t.indices) : t'.indices.Nodup := by
+  rw [ITree.indices_eq_entries] at hnd hf ⊢
+  have := (h.map Prod.fst).nodup_iff
+  rw [this, List.map_cons, List.nodup_cons]
+  exact ⟨hf, hnd⟩
+
+theorem nodup_of_entries_sublist {t t' : ITree β} (h : t'.entries.Sublist t.entries)
+    (hnd : t.indices.Nodup) : t'.indices.Nodup := by
+  rw [ITree.indices_eq_entries] at hnd ⊢
+  exact hnd.sublist (h.map Prod.fst)
+
+/-- `add_child_node`: the stored pairs are those of before plus the new node, nothing is lost or renamed -/
+theorem C12_add_child (t t' : ITree β) (p l : Nat) (v : β) (fresh : Nat) (hnd : t.indices.Nodup)
+    (h : t.addChildNode p l v fresh = .ok t') : t'.entries.Perm ((fresh, v) :: t.entries) := by
+  unfold ITree.addChildNode at h
+  cases hs : t.find? p with
+  | none => rw [hs] at h; simp at h
+  | some s =>
+    rw [hs] at h
+    simp only at h
+    split at h
+    · simp at h
+    · rename_i hlen
+      split at h
+      · simp at h
+      · rename_i hslot
+        simp only [Except.ok.injEq] at h
+        obtain ⟨pre, suf, h1, h2⟩ := ITree.modifyAt_entries
+          (fun s => .node s.idx s.val (s.kids.set l (some (.node fresh v (IKids.empty s.kids.length))))) t p s hs hnd
+        rw [← h, h2, h1]
+        have hnone : s.kids.get? l = none := by
+          cases hg : s.kids.get? l with
+          | none => rfl
+          | some c => rw [hg] at hslot; simp at hslot
+        have hset := IKids.entries_set_some s.kids l (.node fresh v (IKids.empty s.kids.length)) (by omega) hnone
+        have hse : s.entries = (s.idx, s.val) :: s.kids.entries := by
+          cases s with | node j w gk => simp [ITree.entries, ITree.idx, ITree.val, ITree.kids]
+        simp only [ITree.entries, IKids.entries_empty, List.singleton_append] at hset ⊢
+        rw [hse]
+        -- pre ++ (idx,val) :: set.entries ++ suf  ~  (fresh,v) :: (pre ++ (idx,val) :: kids.entries ++ suf)
+        have h3 : ((s.idx, s.val) :: (s.kids.set l (some (.node fresh v (IKids.empty s.kids.length)))).entries).Perm
+            ((fresh, v) :: (s.idx, s.val) :: s.kids.entries) :=
+          ((List.Perm.cons _ hset)).trans (List.Perm.swap _ _ _)
+        have h4 := (List.Perm.append_left pre h3).append_right suf
+        refine h4.trans ?_
+        simp only [List.append_assoc, List.cons_append]
+        exact List.perm_middle
+
+/-- `try_remove_child`: what remains is a sub-sequence of the stored pairs, and the returned value is the child's -/
+theorem C12_remove_child (t t' : ITree β) (p l : Nat) (v : β) (hnd : t.indices.Nodup)
+    (h : t.tryRemoveChild p l = .ok (t', v)) : t'.entries.Sublist t.entries := by
+  unfold ITree.tryRemoveChild at h
+  cases hs : t.find? p with
+  | none => rw [hs] at h; simp at h
+  | some s =>
+    rw [hs] at h
+    simp only at h
+    split at h
+    · simp at h
+    · cases hg : s.kids.get? l with
+      | none => rw [hg] at h; simp at h
+      | some c =>
+        rw [hg] at h
+        simp only [Except.ok.injEq, Prod.mk.injEq] at h
+        obtain ⟨pre, suf, h1, h2⟩ := ITree.modifyAt_entries
+          (fun s => .node s.idx s.val (s.kids.set l none)) t p s hs hnd
+        rw [← h.1, h2, h1]
+        have hse : s.entries = (s.idx, s.val) :: s.kids.entries := by
+          cases s with | node j w gk => simp [ITree.entries, ITree.idx, ITree.val, ITree.kids]
+        rw [hse]
+        simp only [ITree.entries]
+        exact ((List.Sublist.refl pre).append ((IKids.entries_set_none s.kids l).cons_cons _)).append (List.Sublist.refl suf)
+
+/-- `remove_all_descendants`: what remains is a sub-sequence, and the reported count is the number of nodes that
+    disappeared -/
+theorem C12_remove_descendants (t t' : ITree β) (i k : Nat) (hnd : t.indices.Nodup)
+    (h : t.removeAllDescendants i = .ok (t', k)) : t'.entries.Sublist t.entries ∧ t'.size + k = t.size := by
+  unfold ITree.removeAllDescendants at h
+  cases hs : t.find? i with
+  | none => rw [hs] at h; simp at h
+  | some s =>
+    rw [hs] at h
+    simp only [Except.ok.injEq, Prod.mk.injEq] at h
+    obtain ⟨pre, suf, h1, h2⟩ := ITree.modifyAt_entries
+      (fun s => .node s.idx s.val (IKids.empty s.kids.length)) t i s hs hnd
+    have hse : s.entries = (s.idx, s.val) :: s.kids.entries := by
+      cases s with | node j w gk => simp [ITree.entries, ITree.idx, ITree.val, ITree.kids]
+    constructor
+    · rw [← h.1, h2, h1, hse]
+      simp only [ITree.entries, IKids.entries_empty]
+      exact ((List.Sublist.refl pre).append ((List.nil_sublist _).cons_cons _)).append (List.Sublist.refl suf)
+    · rw [← h.1, ← h.2, ITree.size_eq_entries, ITree.size_eq_entries, ITree.size_eq_entries, h2, h1, hse]
+      simp only [ITree.entries, IKids.entries_empty, List.length_append, List.length_cons, List.length_nil]
+      omega
+
+/-- `merge_child_with_parent`: what remains is a sub-sequence of the stored pairs -/
+theorem C12_merge (t t' : ITree β) (p l : Nat) (hnd : t.indices.Nodup)
+    (h : t.mergeChildWithParent p l = .ok t') : t'.entries.Sublist t.entries := by
+  unfold ITree.mergeChildWithParent at h
+  cases hs : t.find? p with
+  | none => rw [hs] at h; simp at h
+  | some s =>
+    rw [hs] at h
+    simp only at h
+    split at h
+    · simp at h
+    · split at h
+      · simp at h
+      · split at h
+        · simp at h
+        · cases hg : s.kids.get? l with
+          | none => rw [hg] at h; simp at h
+          | some c =>
+            rw [hg] at h
+            simp only [Except.ok.injEq] at h
+            obtain ⟨pre, suf, h1, h2⟩ := ITree.modifyAt_entries (fun _ => c) t p s hs hnd
+            rw [← h, h2, h1]
+            have hse : s.entries = (s.idx, s.val) :: s.kids.entries := by
+              cases s with | node j w gk => simp [ITree.entries, ITree.idx, ITree.val, ITree.kids]
+            rw [hse]
+            exact ((List.Sublist.refl pre).append ((IKids.entries_get s.kids l c hg).cons _)).append
+              (List.Sublist.refl suf)
+
+/-- `update_node`: one pair changes its value, every index and every other value stays; the old value is returned -/
+theorem C12_update (t t' : ITree β) (i : Nat) (v old : β) (hnd : t.indices.Nodup)
+    (h : t.updateNode i v = .ok (t', old)) :
+    ∃ pre suf, t.entries = pre ++ (i, old) :: suf ∧ t'.entries = pre ++ (i, v) :: suf := by
+  unfold ITree.updateNode at h
+  cases hs : t.find? i with
+  | none => rw [hs] at h; simp at h
+  | some s =>
+    rw [hs] at h
+    simp only [Except.ok.injEq, Prod.mk.injEq] at h
+    obtain ⟨pre, suf, h1, h2⟩ := ITree.modifyAt_entries (fun s => .node s.idx v s.kids) t i s hs hnd
+    have hi := ITree.find?_idx t i s hs
+    have hse : s.entries = (s.idx, s.val) :: s.kids.entries := by
+      cases s with | node j w gk => simp [ITree.entries, ITree.idx, ITree.val, ITree.kids]
+    refine ⟨pre, s.kids.entries ++ suf, ?_, ?_⟩
+    · rw [h1, hse, ← h.2, hi]; simp
+    · rw [← h.1, h2, hi]; simp [ITree.entries]
+
+/-! ### every reachable state -/
+
+/-- the operations of the history alphabet; `fresh` is the slab key the allocator hands out for an insertion -/
+inductive TOp (β : Type) where
+  | addChild (parent label : Nat) (v : β) (fresh : Nat)
+  | removeChild (parent label : Nat)
+  | removeDescendants (i : Nat)
+  | merge (parent label : Nat)
+  | update (i : Nat) (v : β)
+
+/-- one step: a call that returns an error (or panics) leaves the tree as it was -/
+def ITree.step (t : ITree β) : TOp β → ITree β
+  | .addChild p l v f => match t.addChildNode p l v f with | .ok t' => t' | .error _ => t
+  | .removeChild p l => match t.tryRemoveChild p l with | .ok (t', _) => t' | .error _ => t
+  | .removeDescendants i => match t.removeAllDescendants i with | .ok (t', _) => t' | .error _ => t
+  | .merge p l => match t.mergeChildWithParent p l with | .ok t' => t' | .error _ => t
+  | .update i v => match t.updateNode i v with | .ok (t', _) => t' | .error _ => t
+
+/-- the allocator's contract: an insertion receives a key that is not in use -/
+def TOp.freshFor (t : ITree β) : TOp β → Prop
+  | .addChild _ _ _ f => f ∉ t.indices
+  | _ => True
+
+theorem C12_step (t : ITree β) (op : TOp β) (hnd : t.indices.Nodup) (hf : op.freshFor t) :
+    (t.step op).indices.Nodup := by
+  cases op with
+  | addChild p l v f =>
+    simp only [ITree.step]
+    cases h : t.addChildNode p l v f with
+    | error e => exact hnd
+    | ok t' => exact nodup_of_entries_perm (C12_add_child t t' p l v f hnd h) hnd hf
+  | removeChild p l =>
+    simp only [ITree.step]
+    cases h : t.tryRemoveChild p l with
+    | error e => exact hnd
+    | ok r => obtain ⟨t', v⟩ := r; exact nodup_of_entries_sublist (C12_remove_child t t' p l v hnd h) hnd
+  | removeDescendants i =>
+    simp only [ITree.step]
+    cases h : t.removeAllDescendants i with
+    | error e => exact hnd
+    | ok r => obtain ⟨t', k⟩ := r; exact nodup_of_entries_sublist (C12_remove_descendants t t' i k hnd h).1 hnd
+  | merge p l =>
+    simp only [ITree.step]
+    cases h : t.mergeChildWithParent p l with
+    | error e => exact hnd
+    | ok t' => exact nodup_of_entries_sublist (C12_merge t t' p l hnd h) hnd
+  | update i v =>
+    simp only [ITree.step]
+    cases h : t.updateNode i v with
+    | error e => exact hnd
+    | ok r =>
+      obtain ⟨t', old⟩ := r
+      obtain ⟨pre, suf, h1, h2⟩ := C12_update t t' i v old hnd h
+      rw [ITree.indices_eq_entries] at hnd ⊢
+      rw [h2]; rw [h1] at hnd
+      simpa using hnd
+
+/-- a history whose insertions receive unused keys -/
+def FreshHistory : ITree β → List (TOp β) → Prop
+  | _, [] => True
+  | t, op :: ops => op.freshFor t ∧ FreshHistory (t.step op) ops
+
+/-- after any sequence of operations, successful or failing, the stored indices are pairwise distinct — hence
+    (theorems above) links mirror each other, leaf flags are right, one node has no parent and `len()` is the number
+    of reachable nodes -/
+theorem C12_history (t : ITree β) (ops : List (TOp β)) (hnd : t.indices.Nodup) (hf : FreshHistory t ops) :
+    (ops.foldl ITree.step t).indices.Nodup := by
+  induction ops generalizing t with
+  | nil => exact hnd
+  | cons op ops ih => exact ih (t.step op) (C12_step t op hnd hf.1) hf.2
+
+/-- non-vacuity: a tree with index reuse satisfies the hypotheses and runs through a mixed history -/
+def exTree : ITree Nat := .node 0 7 (.cons (some (.node 1 8 (IKids.empty 2))) (.cons none .nil))
+
+example : exTree.indices.Nodup := by decide
+example : FreshHistory exTree
+    [.addChild 0 1 9 2, .removeChild 0 0, .addChild 2 0 5 1, .addChild 0 1 3 4, .update 1 6, .merge 2 0] := by
+  simp only [FreshHistory, TOp.freshFor, and_true, true_and]
+  decide +kernel
+
 end AV
